@@ -7,6 +7,20 @@ HERE = os.path.dirname(os.path.dirname(os.path.abspath(__file__)))
 
 # property id -> (level category, technique, level text, level note, design ref)
 CHECKS = {
+    "C01": (
+        "exploration",
+        "Hypothesis property-based testing against independent oracles: single-event isolation of the estimator vs integrand x Jacobian / pdf from explicit ECEF vectors and closed-form densities; inverse-CDF residuals; scrambled-Sobol quadrature vs nested Gauss-Kronrod aperture in a different parametrisation; fresh-object differential over throw/integrate histories",
+        "Generated configurations x points of the closed unit 4-cube. The pointwise identity (1e-9 relative plus a stated rounding model) carries the sensitivity; the stratified quadrature (tolerance 3e-3 of the aperture, calibrated) is the end-to-end unbiasedness check. Evidence, not proof; estimator errors below the tolerances are invisible.",
+        "scipy.integrate.quad and scipy.stats.qmc trusted; spherical Earth R=6378.1 km; events within 1e-9 of the limb singularity are don't-care for the pointwise weight.",
+        "DESIGN.md §4 C01",
+    ),
+    "C02": (
+        "exploration",
+        "Hypothesis property-based testing with an explicit-vector geometric reference (ECEF vectors, atan2 angles, closed-form CDF, straight-line kinematics), boundary-heavy generation on the faces of the unit cube, poles and antimeridian; fresh-object differential over call histories",
+        "Every generated (configuration, u) is checked for range and inverse-CDF image of the path length, spot on the sphere at the chord distance, emergence angle and keep decision from explicit vectors, and ground offset of points along the trajectory; sequences of throws on one object are compared bit for bit with fresh objects. Evidence, not proof.",
+        "numpy trusted; tolerances 1e-9 (cos), 1e-5 deg, 1e-9 rad plus a documented rounding model of the code's arccos-based formulas; mirror image about the (V,N) plane not distinguished.",
+        "DESIGN.md §4 C02",
+    ),
     "C19": (
         "exploration",
         "Hypothesis property-based testing: round-trip + pairwise monotonicity + copy-vs-copy differential + independent scalar reference, boundary-heavy generators with exhaustive ulp sweeps of the layer boundaries",
